@@ -82,7 +82,7 @@ func baseDoFile(L *LState) int {
 }
 
 func baseError(L *LState) int {
-	obj := L.CheckAny(1)
+	obj := L.Get(1)
 	level := L.OptInt(2, 1)
 	L.Error(obj, level)
 	return 0
